@@ -218,6 +218,11 @@ def judge(rec, lst, rnd, perms=3, parts=2):
             rec.violation('merchant-group', f'merchant {m!r}: impl {d and (d["total"], d["count"])} model {(float(v), cm[m])}', case)
     if set(stats['by_merchant']) != set(gm):
         rec.violation('merchant-group', 'merchant key set differs', case)
+    # the per-merchant payment list (what the report page, the per-category breakdown and the views are computed from) holds EVERY payment that is in the count
+    for m, d in stats['by_merchant'].items():
+        if 'transactions' in d and len(d['transactions']) != d['count']:
+            rec.violation('merchant-payment-list-incomplete', f'merchant {m!r}: count {d["count"]}, {len(d["transactions"])} payments in its list', case)
+            break
     for k, v in gc.items():
         d = stats['by_category'].get(k)
         if d is None or not close(d['total'], v, tol) or d['count'] != cc[k]:
@@ -486,6 +491,14 @@ def run(rec, shard, nshards, t):
         hashseed_probe(rec)
         if t != 'quick':
             core.repo_tests_with_monitors(rec, 'C06')
+    if shard == 0:
+        # one merchant with very many payments (a transit card, a coffee habit over several years) among ordinary ones
+        big = gen_list(rnd, 40)
+        for i in range(1300):
+            big.append(dict(big[i % 40], merchant=big[0]['merchant'], category=big[0]['category'], subcategory=big[0]['subcategory'], amount=round(2.5 + (i % 7) * 0.25, 2)))
+        rec.case()
+        judge(rec, big, rnd, perms=1, parts=1)
+        rec.count('lists_with_a_merchant_of_over_a_thousand_payments')
     total = 4000 if t == 'quick' else 100000
     n = total // nshards
     for i in range(n):
